@@ -84,6 +84,15 @@ class FakeSock:
     def recv(self, n):
         return self.chunks.pop(0) if self.chunks else b''
 
+    def recv_into(self, buf, nbytes=0):
+        """the other receive call of a socket: fills the caller's buffer, returns the number of bytes"""
+        data = self.recv(nbytes or len(buf))
+        size = min(len(data), nbytes or len(buf))
+        if size < len(data):
+            self.chunks.insert(0, data[size:])
+        buf[:size] = data[:size]
+        return size
+
     def sendall(self, b):
         if self.gone is not None and len(self.out) >= self.gone['after']:
             raise GONE[self.gone['exc']]('the peer is gone')
@@ -438,6 +447,11 @@ class SchedSock(FakeSock):
     def recv(self, n):
         self.sched.yield_(('recv', self.name))
         return super().recv(n)
+
+    def recv_into(self, buf, nbytes=0):
+        size = super().recv_into(buf, nbytes)
+        self.sched.yield_(('received', self.name))     # the thread may lose the processor before it looks at the buffer
+        return size
 
     def sendall(self, b):
         b = bytes(b)
@@ -1348,7 +1362,7 @@ def run(ctx):
                                        'detail': {'verdict': ev['judge']['bad'], 'died': ev['impl']['died_text']}})
     res.notes.append(f'{ncorpus} corpus cases run first')
     # ---------- sessions: connections one after the other on one node, run again with neutral lines left out ----------
-    gen = [gen_session(rng) for _ in range(ctx.budget(250, 4000))]
+    gen = [gen_session(rng) for _ in range(ctx.budget(250, 2500))]
     orc = oracles_for(ctx, [s for streams, _ in gen for s in streams])
     answers = ctx.driver.batch([dict({'p': 'C07', 'k': 'neutral', 'stream': hx(s)}, **orc[s]) for streams, _ in gen for s in streams])
     sessions = list(sess_corpus)
